@@ -15,6 +15,9 @@ Theorem C11_history : forall ops,
   (forall f, In f (caller_fds s) -> tab s f <> None /\ ~ In f (closes s) /\ ~ held s f)
   (* and still refer to the file they were opened for *)
   /\ (forall f o, In (EvOpen f o) (log s) -> In f (caller_fds s) -> tab s f = Some o)
+  (* a descriptor held by an object that still has a live handle is open, has not been closed and is
+     library-owned: the close happens when the last handle is dropped, NOT BEFORE *)
+  /\ (forall f, held s f -> tab s f <> None /\ ~ In f (closes s) /\ In f (lib_owned s))
   (* the library never closes a descriptor twice, and only descriptors it owns; they are closed then *)
   /\ NoDup (closes s)
   /\ (forall f, In f (closes s) -> In f (lib_owned s) /\ tab s f = None)
@@ -120,3 +123,27 @@ Theorem C11_unmarshal : forall ops b bd idx s' r,
                 /\ tab s' = tab s /\ bods s' = bods s /\ cfds s' = cfds s).
 Proof. intros ops b bd idx s' r s. apply unmarshal_spec. apply run_inv0. Qed.
 Print Assumptions C11_unmarshal.
+
+(** The dynamic Param API ([parser().get_param()], also inside arrays, structs, dict entries and
+    variants, and [MarshalledMessage::unmarshall_all]) decodes a descriptor with the same
+    [read_unixfd] call as the typed API (wire/unmarshal/param/base.rs). [decoded]: one new variable
+    per stored index, each one more handle on the object AT that index of the message's own list
+    (strong + number of occurrences), no descriptor created, closed or changed; a stored index beyond
+    the list makes the whole call fail and nothing changes. *)
+Theorem C11_decode : forall ops b bd k s' r,
+  let s := run ops init in
+  lookup_b s b = Some bd -> (k <= length (bidx bd))%nat -> step s (Decode b k) = (s', r) ->
+  ((exists i, In i (firstn k (bidx bd)) /\ len (bfds bd) <= i) -> r = RErr /\ s' = s)
+  /\ ((forall i, In i (firstn k (bidx bd)) -> i < len (bfds bd)) -> decoded s s' bd (firstn k (bidx bd)) r).
+Proof. intros ops b bd k s' r s. apply decode_spec. Qed.
+Print Assumptions C11_decode.
+
+(** [unmarshall_all] consumes the message: on success the list lives on (in [Message.raw_fds]) next
+    to the decoded values; on failure the message is dropped like any other (no leak: C11_history). *)
+Theorem C11_decode_owned : forall ops b bd s' r,
+  let s := run ops init in
+  lookup_b s b = Some bd -> step s (DecodeOwned b) = (s', r) ->
+  ((exists i, In i (bidx bd) /\ len (bfds bd) <= i) -> r = RErr /\ s' = fst (step s (DropBody b)))
+  /\ ((forall i, In i (bidx bd) -> i < len (bfds bd)) -> decoded s s' bd (bidx bd) r).
+Proof. intros ops b bd s' r s. apply decode_owned_spec. Qed.
+Print Assumptions C11_decode_owned.
